@@ -1,41 +1,378 @@
 (* SvobProofs.v — set algebra of every SimpleVob operation against `get`.
    STATEMENTS ARE FIXED; only proofs (and auxiliary lemmas) may be added. *)
 From LLG Require Import Base Svob.
+Require Import Zify.
+
+(* lia extended with Euclidean division by constants (N./ and N.modulo) *)
+Ltac dlia := zify; Z.to_euclidean_division_equations; lia.
+
+(* ======================================================================= *)
+(* Auxiliary lemmas                                                        *)
+(* ======================================================================= *)
+
+(* ---- lists: update_nth / nth / repeat / seqN ---- *)
+Lemma length_update_nth : forall {A} (l : list A) i f,
+  length (update_nth l i f) = length l.
+Proof.
+  intros A l; induction l as [|x l IH]; intros i f.
+  - reflexivity.
+  - destruct i as [|i]; cbn [update_nth length].
+    + reflexivity.
+    + rewrite IH; reflexivity.
+Qed.
+
+Lemma nth_update_nth_eq : forall {A} (l : list A) i f d,
+  (i < length l)%nat -> nth i (update_nth l i f) d = f (nth i l d).
+Proof.
+  intros A l; induction l as [|x l IH]; intros i f d Hi.
+  - cbn [length] in Hi; lia.
+  - destruct i as [|i]; cbn [update_nth nth].
+    + reflexivity.
+    + apply IH. cbn [length] in Hi; lia.
+Qed.
+
+Lemma nth_update_nth_neq : forall {A} (l : list A) i k f d,
+  k <> i -> nth k (update_nth l i f) d = nth k l d.
+Proof.
+  intros A l; induction l as [|x l IH]; intros i k f d Hne.
+  - reflexivity.
+  - destruct i as [|i]; destruct k as [|k]; cbn [update_nth nth]; try reflexivity.
+    + congruence.
+    + apply IH. congruence.
+Qed.
+
+Lemma Forall_update_nth : forall {A} (P : A -> Prop) (l : list A) i f,
+  Forall P l -> (forall x, P x -> P (f x)) -> Forall P (update_nth l i f).
+Proof.
+  intros A P l; induction l as [|x l IH]; intros i f HF Hf.
+  - constructor.
+  - inversion HF as [|x' l' Hx Hl]; subst.
+    destruct i as [|i]; cbn [update_nth]; constructor; auto.
+Qed.
+
+Lemma nth_repeat_0 : forall n k, nth k (repeat 0 n) 0 = 0.
+Proof.
+  induction n as [|n IH]; intros k; destruct k as [|k]; cbn [repeat nth]; auto.
+Qed.
+
+Lemma Forall_repeat : forall {A} (P : A -> Prop) x n, P x -> Forall P (repeat x n).
+Proof.
+  intros A P x n Hx; induction n as [|n IH]; cbn [repeat]; constructor; auto.
+Qed.
+
+Lemma length_seqN : forall n s, length (seqN s n) = n.
+Proof.
+  induction n as [|n IH]; intros s; cbn [seqN length]; [reflexivity|].
+  rewrite IH; reflexivity.
+Qed.
+
+Lemma In_seqN : forall n s x, In x (seqN s n) <-> s <= x < s + N.of_nat n.
+Proof.
+  induction n as [|n IH]; intros s x; cbn [seqN In].
+  - lia.
+  - rewrite IH. lia.
+Qed.
+
+Lemma seqN_app : forall n m s, seqN s (n + m) = seqN s n ++ seqN (s + N.of_nat n) m.
+Proof.
+  induction n as [|n IH]; intros m s.
+  - cbn [Nat.add seqN app]. f_equal. lia.
+  - cbn [Nat.add seqN app]. f_equal. rewrite IH. f_equal. f_equal. lia.
+Qed.
+
+Lemma seqN_shift : forall n s a, seqN (a + s) n = map (fun b => a + b) (seqN s n).
+Proof.
+  induction n as [|n IH]; intros s a; cbn [seqN map]; [reflexivity|].
+  f_equal. rewrite <- IH. f_equal. lia.
+Qed.
+
+(* ---- 32-bit words ---- *)
+Lemma lt32_bits : forall w, w < 2 ^ 32 <-> (forall k, 32 <= k -> N.testbit w k = false).
+Proof.
+  intros w; split.
+  - intros H k Hk. rewrite <- (N.mod_small w (2 ^ 32)) by exact H.
+    apply N.mod_pow2_bits_high; exact Hk.
+  - intros H. assert (E : w mod 2 ^ 32 = w).
+    { apply N.bits_inj; intro k. destruct (N.lt_ge_cases k 32) as [L|G].
+      - apply N.mod_pow2_bits_low; exact L.
+      - rewrite N.mod_pow2_bits_high by exact G. symmetry; apply H; exact G. }
+    rewrite <- E. apply N.mod_lt. apply N.pow_nonzero. discriminate.
+Qed.
+
+Lemma ones32_bit : forall k, N.testbit ones32 k = (k <? 32).
+Proof.
+  intros k; unfold ones32. destruct (N.ltb_spec k 32) as [L|G].
+  - apply N.ones_spec_low; exact L.
+  - apply N.ones_spec_high; exact G.
+Qed.
+
+Lemma not32_bit : forall w k, N.testbit (not32 w) k = xorb (N.testbit w k) (k <? 32).
+Proof.
+  intros w k; unfold not32. rewrite N.lxor_spec, ones32_bit. reflexivity.
+Qed.
+
+Lemma pow2_bit : forall p k, N.testbit (N.shiftl 1 p) k = (k =? p).
+Proof.
+  intros p k. rewrite N.shiftl_1_l, N.pow2_bits_eqb. apply N.eqb_sym.
+Qed.
+
+Lemma set_word_bit : forall w p b k,
+  N.testbit (set_word w p b) k =
+  if b then N.testbit w k || (k =? p)
+  else N.testbit w k && xorb (k =? p) (k <? 32).
+Proof.
+  intros w p b k; unfold set_word; destruct b.
+  - rewrite N.lor_spec, pow2_bit; reflexivity.
+  - rewrite N.land_spec, not32_bit, pow2_bit; reflexivity.
+Qed.
+
+Lemma set_word_bit_low : forall w p b k, k < 32 ->
+  N.testbit (set_word w p b) k = if k =? p then b else N.testbit w k.
+Proof.
+  intros w p b k Hk. rewrite set_word_bit.
+  apply N.ltb_lt in Hk. rewrite Hk.
+  destruct b; destruct (k =? p); destruct (N.testbit w k); reflexivity.
+Qed.
+
+Lemma set_word_lt : forall w p b, w < 2 ^ 32 -> p < 32 -> set_word w p b < 2 ^ 32.
+Proof.
+  intros w p b Hw Hp. apply lt32_bits. intros k Hk.
+  rewrite set_word_bit. rewrite (proj1 (lt32_bits w) Hw k Hk).
+  destruct b; [|reflexivity].
+  cbn [orb]. apply N.eqb_neq. lia.
+Qed.
+
+Lemma not32_lt : forall w, w < 2 ^ 32 -> not32 w < 2 ^ 32.
+Proof.
+  intros w Hw. apply lt32_bits. intros k Hk.
+  rewrite not32_bit, (proj1 (lt32_bits w) Hw k Hk).
+  destruct (N.ltb_spec k 32) as [L|G]; [lia|reflexivity].
+Qed.
+
+Lemma ones32_lt : ones32 < 2 ^ 32.
+Proof. apply lt32_bits. intros k Hk. rewrite ones32_bit. apply N.ltb_ge; exact Hk. Qed.
+
+(* ---- get: basic facts ---- *)
+Lemma get_words : forall ws sz j,
+  get (mk_svob ws sz) j = N.testbit (nth (N.to_nat (j / 32)) ws 0) (j mod 32).
+Proof. reflexivity. Qed.
+
+Lemma get_unfold : forall v j,
+  get v j = N.testbit (nth (N.to_nat (j / 32)) (words v) 0) (j mod 32).
+Proof. reflexivity. Qed.
+
+Lemma get_pre_lt : forall v j, get_pre v j = true <-> (N.to_nat (j / 32) < length (words v))%nat.
+Proof.
+  intros v j; unfold get_pre, nwords, lenN. rewrite N.ltb_lt. lia.
+Qed.
+
+Lemma get_pre_cap : forall v j, get_pre v j = (j <? cap_bits v).
+Proof.
+  intros v j; unfold get_pre, cap_bits.
+  destruct (N.ltb_spec (j / 32) (nwords v)); destruct (N.ltb_spec j (32 * nwords v)); try reflexivity; dlia.
+Qed.
+
+Lemma get_no_pre : forall v j, get_pre v j = false -> get v j = false.
+Proof.
+  intros v j H. rewrite get_unfold. rewrite nth_overflow; [apply N.bits_0|].
+  unfold get_pre, nwords, lenN in H. apply N.ltb_ge in H. lia.
+Qed.
+
+Lemma mod32_lt : forall j, j mod 32 < 32.
+Proof. intros j; apply N.mod_lt; discriminate. Qed.
+
 
 (* ---- construction ---- *)
 Lemma vsize_alloc : forall n, vsize (alloc n) = n.
-Proof. Admitted.
+Proof. reflexivity. Qed.
 Lemma nwords_alloc : forall n, nwords (alloc n) = div_ceil32 n.
-Proof. Admitted.
+Proof.
+  intros n; unfold nwords, lenN, alloc, resize, svob_new; cbn [words app length].
+  rewrite repeat_length. lia.
+Qed.
 Lemma get_alloc : forall n i, get (alloc n) i = false.
-Proof. Admitted.
+Proof.
+  intros n i; unfold alloc, resize, svob_new; cbn [words app length].
+  rewrite get_words, nth_repeat_0. apply N.bits_0.
+Qed.
 Lemma alloc_wf : forall n, svob_wf (alloc n).
-Proof. Admitted.
+Proof.
+  intros n; split.
+  - unfold alloc, resize, svob_new; cbn [words app length].
+    apply Forall_repeat. reflexivity.
+  - unfold cap_bits. rewrite nwords_alloc, vsize_alloc. unfold div_ceil32. dlia.
+Qed.
 Lemma alloc_with_capacity_wf : forall n c,
   alloc_with_capacity_pre n c = true -> svob_wf (alloc_with_capacity n c).
-Proof. Admitted.
+Proof.
+  intros n c Hpre. unfold alloc_with_capacity_pre in Hpre. apply N.leb_le in Hpre.
+  destruct (alloc_wf c) as [HF Hc]. split.
+  - exact HF.
+  - unfold cap_bits, nwords, alloc_with_capacity in *. cbn [words vsize] in *.
+    rewrite vsize_alloc in Hc. lia.
+Qed.
 Lemma get_alloc_with_capacity : forall n c i, get (alloc_with_capacity n c) i = false.
-Proof. Admitted.
+Proof.
+  intros n c i. unfold alloc_with_capacity. rewrite get_words, <- get_unfold. apply get_alloc.
+Qed.
 
 (* ---- single bits ---- *)
 Lemma get_set : forall v i b j,
   set_pre v i = true -> get (set v i b) j = if j =? i then b else get v j.
-Proof. Admitted.
+Proof.
+  intros v i b j Hpre. unfold set_pre in Hpre. apply get_pre_lt in Hpre.
+  unfold set. rewrite get_words, get_unfold.
+  destruct (N.eq_dec (j / 32) (i / 32)) as [E|NE].
+  - rewrite E, nth_update_nth_eq by exact Hpre.
+    rewrite set_word_bit_low by apply mod32_lt.
+    destruct (N.eqb_spec (j mod 32) (i mod 32)) as [E2|NE2];
+      destruct (N.eqb_spec j i) as [E3|NE3]; try reflexivity; exfalso; dlia.
+  - rewrite nth_update_nth_neq by lia.
+    destruct (N.eqb_spec j i) as [E3|NE3]; [subst; congruence|reflexivity].
+Qed.
 Lemma set_wf : forall v i b, svob_wf v -> svob_wf (set v i b).
-Proof. Admitted.
+Proof.
+  intros v i b [HF Hc]. split.
+  - unfold set; cbn [words]. apply Forall_update_nth; [exact HF|].
+    intros x Hx. apply set_word_lt; [exact Hx|apply mod32_lt].
+  - unfold cap_bits, nwords, lenN, set in *; cbn [words vsize].
+    rewrite length_update_nth. exact Hc.
+Qed.
 Lemma vsize_set : forall v i b, vsize (set v i b) = vsize v.
-Proof. Admitted.
+Proof. reflexivity. Qed.
 Lemma nwords_set : forall v i b, nwords (set v i b) = nwords v.
-Proof. Admitted.
+Proof.
+  intros v i b; unfold nwords, lenN, set; cbn [words]. rewrite length_update_nth. reflexivity.
+Qed.
 
 (* ---- ranges ---- *)
+(* comparison case analysis, closing the leaves with (div/mod-aware) lia *)
+Ltac cmp_cases :=
+  repeat match goal with
+  | |- context [N.leb ?a ?b] => destruct (N.leb_spec a b)
+  | |- context [N.ltb ?a ?b] => destruct (N.ltb_spec a b)
+  | |- context [N.eqb ?a ?b] => destruct (N.eqb_spec a b)
+  | |- context [Nat.leb ?a ?b] => destruct (Nat.leb_spec a b)
+  | |- context [Nat.ltb ?a ?b] => destruct (Nat.ltb_spec a b)
+  | |- context [Nat.eqb ?a ?b] => destruct (Nat.eqb_spec a b)
+  end; cbn [andb orb negb xorb];
+  rewrite ?orb_false_r, ?orb_true_r, ?andb_false_r, ?andb_true_r;
+  try reflexivity; try (exfalso; dlia).
+
+Lemma nth_update_nth : forall {A} (l : list A) i k f d,
+  nth k (update_nth l i f) d =
+  if ((k =? i) && (k <? length l))%nat then f (nth k l d) else nth k l d.
+Proof.
+  intros A l i k f d.
+  destruct (Nat.eqb_spec k i) as [E|NE]; destruct (Nat.ltb_spec k (length l)) as [L|G]; cbn [andb].
+  - subst. apply nth_update_nth_eq; exact L.
+  - rewrite !nth_overflow; [reflexivity|exact G|rewrite length_update_nth; exact G].
+  - apply nth_update_nth_neq; exact NE.
+  - apply nth_update_nth_neq; exact NE.
+Qed.
+
+Lemma length_fill : forall (c : N) l ws,
+  length (fold_left (fun ws i => update_nth ws (N.to_nat i) (fun _ => c)) l ws) = length ws.
+Proof.
+  intros c l; induction l as [|a l IH]; intros ws; cbn [fold_left]; [reflexivity|].
+  rewrite IH, length_update_nth; reflexivity.
+Qed.
+
+Lemma Forall_fill : forall (P : N -> Prop) (c : N) l ws,
+  P c -> Forall P ws ->
+  Forall P (fold_left (fun ws i => update_nth ws (N.to_nat i) (fun _ => c)) l ws).
+Proof.
+  intros P c l; induction l as [|a l IH]; intros ws Hc HF; cbn [fold_left]; [exact HF|].
+  apply IH; [exact Hc|]. apply Forall_update_nth; auto.
+Qed.
+
+Lemma nth_fill : forall (c : N) n a ws k,
+  nth k (fold_left (fun ws i => update_nth ws (N.to_nat i) (fun _ => c)) (seqN a n) ws) 0 =
+  if ((N.to_nat a <=? k) && (k <? N.to_nat a + n) && (k <? length ws))%nat
+  then c else nth k ws 0.
+Proof.
+  intros c n; induction n as [|n IH]; intros a ws k; cbn [seqN fold_left].
+  - cmp_cases.
+  - rewrite IH, length_update_nth, nth_update_nth. cmp_cases.
+Qed.
+
+Lemma start_mask_bit : forall p m, m < 32 ->
+  N.testbit (u32 (N.shiftl ones32 p)) m = (p <=? m).
+Proof.
+  intros p m Hm. unfold u32. rewrite N.mod_pow2_bits_low by exact Hm.
+  destruct (N.leb_spec p m) as [L|G].
+  - rewrite N.shiftl_spec_high' by exact L. rewrite ones32_bit. apply N.ltb_lt. lia.
+  - apply N.shiftl_spec_low; exact G.
+Qed.
+
+Lemma start_mask_lt : forall p, u32 (N.shiftl ones32 p) < 2 ^ 32.
+Proof. intros p; unfold u32. apply N.mod_lt. apply N.pow_nonzero. discriminate. Qed.
+
+Lemma end_mask_bit : forall q m, q < 32 ->
+  N.testbit (N.shiftr ones32 (31 - q)) m = (m <=? q).
+Proof.
+  intros q m Hq. rewrite N.shiftr_spec', ones32_bit. cmp_cases.
+Qed.
+
+Lemma end_mask_lt : forall q, q < 32 -> N.shiftr ones32 (31 - q) < 2 ^ 32.
+Proof.
+  intros q Hq. apply lt32_bits. intros k Hk. rewrite end_mask_bit by exact Hq.
+  apply N.leb_gt. lia.
+Qed.
+
+Lemma lor_lt32 : forall a b, a < 2 ^ 32 -> b < 2 ^ 32 -> N.lor a b < 2 ^ 32.
+Proof.
+  intros a b Ha Hb. apply lt32_bits. intros k Hk.
+  rewrite N.lor_spec, (proj1 (lt32_bits a) Ha k Hk), (proj1 (lt32_bits b) Hb k Hk). reflexivity.
+Qed.
+
+Lemma land_lt32_l : forall a b, a < 2 ^ 32 -> N.land a b < 2 ^ 32.
+Proof.
+  intros a b Ha. apply lt32_bits. intros k Hk.
+  rewrite N.land_spec, (proj1 (lt32_bits a) Ha k Hk). reflexivity.
+Qed.
+
 Lemma get_allow_range : forall v s e j,
   svob_wf v -> allow_range_pre v s e = true ->
   get (allow_range v s e) j = get v j || ((s <=? j) && (j <=? e)).
-Proof. Admitted.
+Proof.
+  intros v s e j [HF Hc] Hpre. unfold allow_range_pre in Hpre. apply N.ltb_lt in Hpre.
+  unfold cap_bits, nwords, lenN in Hc.
+  pose proof (mod32_lt j) as Hjm. pose proof (mod32_lt s) as Hsm. pose proof (mod32_lt e) as Hem.
+  unfold allow_range.
+  destruct (N.ltb_spec e s) as [Hes|Hse].
+  - cmp_cases.
+  - cbv zeta. destruct (N.eqb_spec (s / 32) (e / 32)) as [Ew|NEw].
+    + rewrite get_words, get_unfold, nth_update_nth.
+      destruct (Nat.eqb_spec (N.to_nat (j / 32)) (N.to_nat (s / 32))) as [Ej|NEj];
+        destruct (Nat.ltb_spec (N.to_nat (j / 32)) (length (words v))) as [Lj|Gj]; cbn [andb].
+      * rewrite N.lor_spec, N.land_spec, start_mask_bit, end_mask_bit by assumption.
+        f_equal. cmp_cases.
+      * exfalso; dlia.
+      * cmp_cases.
+      * cmp_cases.
+    + rewrite get_words, get_unfold.
+      rewrite nth_update_nth, length_fill, nth_fill, !length_update_nth, !nth_update_nth.
+      cmp_cases;
+        rewrite ?N.lor_spec, ?ones32_bit, ?start_mask_bit, ?end_mask_bit by assumption;
+        try (f_equal; cmp_cases); rewrite ?orb_false_r, ?orb_true_r; try reflexivity.
+Qed.
 Lemma allow_range_wf : forall v s e,
   svob_wf v -> allow_range_pre v s e = true -> svob_wf (allow_range v s e).
-Proof. Admitted.
+Proof.
+  intros v s e [HF Hc] Hpre. pose proof (mod32_lt e) as Hem.
+  unfold allow_range. destruct (e <? s); [split; assumption|].
+  cbv zeta. destruct (s / 32 =? e / 32); split; cbn [words vsize].
+  - apply Forall_update_nth; [exact HF|]. intros x Hx.
+    apply lor_lt32; [exact Hx|]. apply land_lt32_l, start_mask_lt.
+  - unfold cap_bits, nwords, lenN in *; cbn [words]. rewrite length_update_nth. exact Hc.
+  - apply Forall_update_nth.
+    + apply Forall_fill; [exact ones32_lt|]. apply Forall_update_nth; [exact HF|].
+      intros x Hx. apply lor_lt32; [exact Hx|apply start_mask_lt].
+    + intros x Hx. apply lor_lt32; [exact Hx|apply end_mask_lt; exact Hem].
+  - unfold cap_bits, nwords, lenN in *; cbn [words].
+    rewrite length_update_nth, length_fill, length_update_nth. exact Hc.
+Qed.
 
 (* ---- complement ---- *)
 Lemma get_negated : forall v j,
